@@ -181,14 +181,17 @@ def run_case(case, stats: Counter):
                 # asyncstdlib never performed that use (e.g. it does not re-poll an exhausted source
                 # where the stdlib does): the premise "raises at its k-th use" is not met -> C05's matter
                 stats["fault_not_reached_by_asyncstdlib"] += 1
-                if kind == "fn" and raised and (list(sync.out) != list(asy.out) or tuple(sync.term) != tuple(asy.term)):
-                    # a user CALLABLE is invoked exactly when the counterpart invokes it (C05), so its k-th use is
-                    # due; the library skipped the call and with it the exception the counterpart surfaces there
+                item_pull = kind == "src" and k <= len(base.srcs[index].items)
+                if (kind == "fn" or item_pull) and raised and (list(sync.out) != list(asy.out) or tuple(sync.term) != tuple(asy.term)):
+                    # a user CALLABLE is invoked exactly when the counterpart invokes it, and an ITEM is pulled from a
+                    # source exactly when the counterpart pulls it (C05; only re-polls of an exhausted source may
+                    # differ), so that k-th use is due: the library skipped it and with it the exception the
+                    # counterpart surfaces there
                     stats["callable_fault_skipped"] += 1
                     key = classify(spec, kind, "callable-not-invoked", sync, asy, case)
                     viols.append({"key": key,
                                   "msg": f"{tool} {spec['params']} srcs={spec['srcs']} flav={flav} fn={fnfl}: fault "
-                                         f"{case['exc']} at use {k} of fn{index}: stdlib makes that call, gives "
+                                         f"{case['exc']} at use {k} of {kind}{index}: stdlib makes that call/pull, gives "
                                          f"{len(sync.out)} items then {sync.term}; asyncstdlib never makes the call and "
                                          f"gives {len(asy.out)} items then {asy.term}"})
                 continue
@@ -217,7 +220,9 @@ def run_case(case, stats: Counter):
 
 def classify(spec, kind, problem, sync, asy, case):
     tool = spec["tool"]
-    if tool == "accumulate" and spec["params"].get("initial") == ["none"]:
+    if tool == "accumulate" and spec["params"].get("initial") == ["none"] and list(asy.out[:1]) == [("v", "NoneType", None)] \
+            and list(sync.out[:1]) != [("v", "NoneType", None)]:
+        # exactly the recorded mechanism: None is treated as a value and delivered first
         return "accumulate/initial-none"
     if tool == "merge" and spec["params"].get("reverse") and problem != "reuse":
         return "merge/reverse-tie-order"
